@@ -2,6 +2,7 @@
   C07  Trigger rules decide on the path alone; no bypass through query or fragment.
   Property theorems only; helper lemmas live in AuthProofs.
 -/
+import AuthProofs.StateInventory
 import AuthProofs.Trigger
 import AuthProofs.Splitter
 import AuthProofs.CodeEquiv
@@ -84,6 +85,9 @@ example : Code.mustTriggerCheck {} [cssRulePb] (reqWithPath (B "/admin?x=.css"))
 example : Code.mustTriggerCheck {} [cssRulePb] (reqWithPath (B "/site.css")) = .ok false := by decide
 example : Code.mustTriggerCheck {} [cssRulePb] { isNil := true } = .ok true := by decide
 
+/-- NO HIDDEN STATE: trigger rules and chain selection are functions of the request and the configuration: the regenerated inventory of internal/server shows no mutable field in ExtAuthZFilter and no package-level variable besides the two response constructors. -/
+theorem no_hidden_state : FilterInventory := filter_inventory
+
 end AuthProps.C07
 
 #print axioms AuthProps.C07.trigger_spec
@@ -96,3 +100,4 @@ end AuthProps.C07
 #print axioms AuthProps.C07.code_trigger_spec
 #print axioms AuthProps.C07.code_decision_depends_on_path_only
 #print axioms AuthProps.C07.code_splitter
+#print axioms AuthProps.C07.no_hidden_state
